@@ -191,7 +191,8 @@ func walk(n brigodier.CommandNode, names map[string]int, out *[]string) {
 	if _, ok := n.(*brigodier.RootCommandNode); !ok {
 		v, ok := names[n.Name()]
 		if !ok {
-			*out = append(*out, "N?"+n.Name())
+			// a node that is not in the proxy's current command tree (stale copy): an id no tree has
+			*out = append(*out, "N"+strconv.Itoa(staleID))
 			return
 		}
 		id = v
@@ -207,6 +208,8 @@ func walk(n brigodier.CommandNode, names map[string]int, out *[]string) {
 	})
 	*out = append(*out, "U")
 }
+
+const staleID = 1 << 20
 
 func joinToks(t []string) string {
 	if len(t) == 0 {
@@ -357,7 +360,15 @@ func digest(n brigodier.CommandNode) string {
 }
 
 func doMerge(bt *built, perms []int, backend []bnode) string {
-	p, names := bt.p, bt.names
+	client := &fakeConn{wrote: make(chan struct{}, 1)}
+	return deliverOnce(func(pkt *packet.AvailableCommands) {
+		proxy.C23HandleAvailableCommands(bt.p, client, permFunc(perms), pkt)
+	}, client, bt.names, backend)
+}
+
+// deliverOnce builds the backend's commands packet, lets handle process it and walks the one packet the player
+// (client) receives because of it.
+func deliverOnce(handle func(*packet.AvailableCommands), client *fakeConn, names map[string]int, backend []bnode) string {
 	root := &brigodier.RootCommandNode{}
 	ident := map[brigodier.CommandNode]int{}
 	before := map[brigodier.CommandNode]string{}
@@ -371,16 +382,21 @@ func doMerge(bt *built, perms []int, backend []bnode) string {
 		ident[n] = b.ident
 		before[n] = digest(n)
 	}
-	client := &fakeConn{wrote: make(chan struct{}, 1)}
-	pkt := &packet.AvailableCommands{RootNode: root}
-	proxy.C23HandleAvailableCommands(p, client, permFunc(perms), pkt)
 	select {
 	case <-client.wrote:
-	case <-time.After(10 * time.Second):
+	default:
+	}
+	client.mu.Lock()
+	had := len(client.packets)
+	client.mu.Unlock()
+	handle(&packet.AvailableCommands{RootNode: root})
+	select {
+	case <-client.wrote:
+	case <-time.After(60 * time.Second):
 		return "hang"
 	}
 	client.mu.Lock()
-	sent := client.packets
+	sent := client.packets[had:]
 	client.mu.Unlock()
 	if len(sent) != 1 {
 		return fmt.Sprintf("packets=%d", len(sent))
@@ -398,7 +414,11 @@ func doMerge(bt *built, perms []int, backend []bnode) string {
 				bk = "0"
 			}
 		} else {
-			rootToks = append(rootToks, fmt.Sprintf("P:%s:%d", c.Name(), names[c.Name()]))
+			id, ok := names[c.Name()]
+			if !ok {
+				id = staleID
+			}
+			rootToks = append(rootToks, fmt.Sprintf("P:%s:%d", c.Name(), id))
 			walk(c, names, &sub)
 		}
 		return true
@@ -525,6 +545,107 @@ func runTree(run *hx.Run, class string, nodes []node, perms []int, backends [][]
 	}
 }
 
+// ---------- histories: several commands packets on ONE backend connection ----------
+
+type hstep struct {
+	nodes   []node
+	perms   []int
+	backend []bnode
+}
+
+// runHistory drives ONE backendPlaySessionHandler (one proxy, one player, one client connection) through several
+// AvailableCommands packets; between packets the player's permissions and/or the proxy's command tree change.
+// Every step is judged against the tree and permissions current AT THAT packet.
+func runHistory(run *hx.Run, class string, steps []hstep) {
+	p := newProxy()
+	var cur []int
+	var mu sync.Mutex
+	perm := func(s string) permission.TriState {
+		mu.Lock()
+		f := permFunc(cur)
+		mu.Unlock()
+		return f(s)
+	}
+	client := &fakeConn{wrote: make(chan struct{}, 1)}
+	h := proxy.C23NewHandler(p, client, perm)
+	var names map[string]int
+	prevTree := "\x00"
+	var hist []string
+	for k, st := range steps {
+		tt := treeTok(st.nodes)
+		if tt != prevTree {
+			// the proxy's command set changed: unregister everything, register the new tree
+			root := &p.Command().Root
+			var old []string
+			for name := range root.Children() {
+				old = append(old, name)
+			}
+			root.RemoveChild(old...)
+			names = buildInto(root, st.nodes)
+			prevTree = tt
+		}
+		mu.Lock()
+		cur = st.perms
+		mu.Unlock()
+		run.Case("tree", "tree "+tt, "ok")
+		run.Case("tree", "perms "+permsTok(st.perms), "ok")
+		here := strings.ReplaceAll(tt, " ", ";") + "/" + permsTok(st.perms)
+		ctx := fmt.Sprintf(" @tree=%s @perms=%s @packet=%d-on-one-backend-connection @earlier-packets=%s",
+			strings.ReplaceAll(tt, " ", ";"), permsTok(st.perms), k+1, joinBar(hist))
+		nm := names
+		out := hx.Guard(90*time.Second, func() string {
+			return deliverOnce(h.C23HandleAvailableCommands, client, nm, st.backend)
+		})
+		run.Case(class+"/merge", "merge "+backendTok(st.backend)+ctx, out)
+		hist = append(hist, here)
+		if out == "hang" {
+			return
+		}
+	}
+}
+
+func joinBar(xs []string) string {
+	if len(xs) == 0 {
+		return "-"
+	}
+	return strings.Join(xs, "|")
+}
+
+func genAcyclic(r *hx.Rng) []node {
+	for {
+		if n := genTree(r, false); !cyclic(n) {
+			return n
+		}
+	}
+}
+
+func genHistory(r *hx.Rng) []hstep {
+	nodes := genAcyclic(r)
+	perms := genPerms(r)
+	var steps []hstep
+	for k, n := 0, 2+r.Intn(3); k < n; k++ {
+		if k > 0 {
+			switch x := r.Intn(100); {
+			case x < 60: // permissions revoked / granted
+				perms = genPerms(r)
+			case x < 85: // requirements of some nodes change (same shape, so still acyclic)
+				nodes = append([]node(nil), nodes...)
+				for j := 0; j < 1+r.Intn(3) && len(nodes) > 0; j++ {
+					i := r.Intn(len(nodes))
+					nodes[i].req = hx.Pick(r, []int{0, 1, 2, 3, 1, 2, 3, -1})
+				}
+				if r.Bool() {
+					perms = genPerms(r)
+				}
+			default: // other proxy commands
+				nodes = genAcyclic(r)
+			}
+		}
+		steps = append(steps, hstep{nodes, perms, genBackend(r)})
+	}
+	return steps
+}
+
 func main() {
 	if arg := os.Getenv("C23_PROBE"); arg != "" {
 		probeMain(arg)
@@ -571,5 +692,17 @@ func main() {
 	}
 	for i := run.Scale(30, 150); i > 0; i-- {
 		runTree(run, "gen-cyclic", genTree(r, true), genPerms(r), nil, &probes)
+	}
+
+	// histories on one backend connection.  Fixed: permission revoked / re-granted between commands packets
+	// (top-level and nested restricted nodes), requirement starting to panic, command set replaced.
+	ht := []node{{0, "server", 0, -1}, {0, "admin", 1, -1}, {2, "n3", 0, -1}, {1, "n4", 2, -1}, {0, "hub", 0, 2}}
+	ht2 := []node{{0, "server", 0, -1}, {0, "admin", -1, -1}, {2, "n3", 0, -1}, {1, "n4", 2, -1}, {0, "hub", 0, 2}}
+	hb := []bnode{{"admin", 1, []string{"k0"}}, {"give", 2, nil}}
+	runHistory(run, "fixed-hist", []hstep{{ht, []int{1, 2}, hb}, {ht, nil, hb}, {ht, []int{1}, hb}, {ht, []int{2}, nil}})
+	runHistory(run, "fixed-hist", []hstep{{ht, nil, hb}, {ht, []int{1, 2}, hb}, {ht2, []int{1, 2}, hb}, {ht, []int{1, 2}, hb}})
+	runHistory(run, "fixed-hist", []hstep{{ht, []int{1, 2}, hb}, {fixed, []int{1}, hb}, {fixed, nil, hb}})
+	for i := run.Scale(150, 1500); i > 0; i-- {
+		runHistory(run, "hist", genHistory(r))
 	}
 }
